@@ -283,25 +283,39 @@ func (a *oauth2IntrospectionAuthenticator) getSubjectInformation(ctx heimdall.Co
 		return nil, err
 	}
 
+	var (
+		introspectResp *oauth2.IntrospectionResponse
+		rawResp        []byte
+		cached         bool
+	)
+
 	if a.isCacheEnabled() {
 		cacheKey = a.calculateCacheKey(metadata.IntrospectionEndpoint, req.URL.String(), token)
 		if entry, err := cch.Get(ctx.AppContext(), cacheKey); err == nil {
-			logger.Debug().Msg("Reusing introspection response from cache")
+			var resp oauth2.IntrospectionResponse
 
-			return entry, nil
+			if err = json.Unmarshal(entry, &resp); err == nil {
+				logger.Debug().Msg("Reusing introspection response from cache")
+
+				introspectResp, rawResp, cached = &resp, entry, true
+			}
 		}
 	}
 
-	introspectResp, rawResp, err := a.fetchTokenIntrospectionResponse(
-		ctx,
-		metadata.IntrospectionEndpoint.CreateClient(req.URL.Hostname()),
-		req,
-	)
-	if err != nil {
-		return nil, err
+	if !cached {
+		introspectResp, rawResp, err = a.fetchTokenIntrospectionResponse(
+			ctx,
+			metadata.IntrospectionEndpoint.CreateClient(req.URL.Hostname()),
+			req,
+		)
+		if err != nil {
+			return nil, err
+		}
 	}
 
-	// configured assertions take precedence over those available in the metadata
+	// configured assertions take precedence over those available in the metadata.
+	// a cached response has been validated by the rule, which stored it, and is validated here again,
+	// as the assertions of this rule are not necessarily the same
 	assertions := a.a.Merge(oauth2.Expectation{
 		TrustedIssuers: []string{metadata.Issuer},
 	})
@@ -311,6 +325,10 @@ func (a *oauth2IntrospectionAuthenticator) getSubjectInformation(ctx heimdall.Co
 			NewWithMessage(heimdall.ErrAuthentication, "access token does not satisfy assertion conditions").
 			WithErrorContext(a).
 			CausedBy(err)
+	}
+
+	if cached {
+		return rawResp, nil
 	}
 
 	if cacheTTL := a.getCacheTTL(introspectResp); cacheTTL > 0 {
